@@ -22,6 +22,9 @@ import (
 //   C  plain indices `[n]`: one case per length, n ∈ [-7..7] ∪ boundary magnitudes
 //   D  random: lengths 0..40, bounds from a mix of small / near-length / power-of-two / random
 //      64-bit values, unions of 1..3 subscripts in a random insignificant spelling
+//   E  long arrays: lengths 257..1100 (at and around 256, 512, 1024), bounds at and around 255 / 256 /
+//      257 / the length / its half (both signs) or anywhere in the array, steps omitted / ±1 / ±2 / ±3 /
+//      around 256; oracles (1) and (2) for every slice, Lean only for one slice per case on a length <= 300
 // Parse ONCE, call often: every slice (A, B: every (start,end,step) of the case; C: every index; D:
 // every union) is additionally parsed a single time and the one returned function is called over
 // a list of lengths in several orders — ascending, descending, zig-zag short-long-short — next to
@@ -68,9 +71,9 @@ func c11Boundary(length int) []*int64 {
 }
 
 type c11Plan struct {
-	nA, nC, nD int
-	bOff       [8]int // first case index of part B for each length (relative to the start of B)
-	nB         int
+	nA, nC, nD, nE int
+	bOff           [8]int // first case index of part B for each length (relative to the start of B)
+	nB             int
 }
 
 func c11Layout(tier string) c11Plan {
@@ -82,15 +85,17 @@ func c11Layout(tier string) c11Plan {
 	}
 	p.bOff[7] = p.nB
 	p.nD = 1000
+	p.nE = 60
 	if tier == "thorough" {
 		p.nD = 120000
+		p.nE = 6000
 	}
 	return p
 }
 
 func (c11) Count(tier string) int {
 	p := c11Layout(tier)
-	return p.nA + p.nB + p.nC + p.nD
+	return p.nA + p.nB + p.nC + p.nD + p.nE
 }
 
 // c11Adjust: PySlice_AdjustIndices for one bound.
@@ -348,6 +353,8 @@ type c11Bundle struct {
 	tags     map[string]bool
 	// parse-once checks: functions parsed, calls made
 	parsedOnce, onceCalls int
+	// part E: documents longer than leanMax are not put to the Lean drivers (0: no limit); at most leanItems items are
+	leanMax, leanItems int
 }
 
 func (b *c11Bundle) fail(text string, doc interface{}, class, what string) {
@@ -475,6 +482,10 @@ func (b *c11Bundle) run(items []c11Item, r *Rng) {
 			}
 			exp += ")"
 		}
+		if b.leanMax > 0 && (it.Len > b.leanMax || b.leanItems <= 0) {
+			continue
+		}
+		b.leanItems--
 		if out.OK || out.ErrKind == "member" {
 			ds := ValSexp(doc)
 			b.rec.Q = append(b.rec.Q,
@@ -643,6 +654,23 @@ func (c11) Exec(seed int64, i int, tier string) Record {
 		if r.Chance(50) {
 			spell = r
 		}
+	case i >= plan.nA+plan.nB+plan.nC+plan.nD:
+		part = "E"
+		spell = r
+		b.leanMax, b.leanItems = 300, 1
+		for k := 0; k < 6; k++ {
+			l := []int{257, 258, 260, 300, 400, 511, 512, 513, 700, 1023, 1024, 1025, 1100}[r.Intn(13)]
+			if k == 0 {
+				l = []int{257, 258, 260, 300}[r.Intn(4)] // the one put to Lean
+			}
+			n := r.Weighted([]int{0, 75, 20, 5})
+			subs := make([]Sub, n)
+			for x := range subs {
+				subs[x] = c11LongSub(r, l)
+			}
+			items = append(items, c11Item{Len: l, Subs: subs})
+		}
+		b.rec.Text = "long arrays"
 	default:
 		part = "D"
 		spell = r
@@ -672,6 +700,13 @@ func (c11) Exec(seed int64, i int, tier string) Record {
 		}
 	}
 	b.run(items, spell)
+	if part == "E" {
+		// parsed once, called on lengths on both sides of 256 / 512 / 1024 and on short arrays
+		for _, it := range items {
+			onceSubs = append(onceSubs, it.Subs)
+			onceLens = append(onceLens, c11Lens(r.Range(0, 12), 255, 256, 257, it.Len, it.Len+1, r.Range(258, 1100), r.Range(200, 300)))
+		}
+	}
 	if part == "D" {
 		// every union once more: parsed once, called on its own length and on shorter and longer ones
 		for _, it := range items {
@@ -723,9 +758,9 @@ func (c11) Exec(seed int64, i int, tier string) Record {
 	}
 	sort.Strings(b.rec.Tags)
 	if b.nonempty > 0 {
-		if part == "D" {
+		if part == "D" || part == "E" {
 			// distinct by the sign / magnitude classes of the first selecting subscript list
-			b.rec.Key = "D/" + b.firstKey
+			b.rec.Key = part + "/" + b.firstKey
 		} else {
 			b.rec.Key = part + "/" + b.rec.Text + "/" + b.rec.Doc
 		}
@@ -777,6 +812,57 @@ func c11RandSub(r *Rng, l int) Sub {
 		s.E = c11Ptr(c11RandInt(r, l))
 	}
 	if r.Chance(80) {
+		s.T = c11Ptr(c11RandInt(r, l))
+	}
+	return s
+}
+
+// c11LongInt: a bound for an array of length l > 256: at and around 255 / 256 / 257, the length, half
+// the length, 512, 1024 (both signs), anywhere in the array, or small.
+func c11LongInt(r *Rng, l int) int64 {
+	var v int64
+	switch r.Weighted([]int{30, 20, 30, 10, 10}) {
+	case 0:
+		v = int64([]int{255, 256, 257, 258, 300, 512, 1024}[r.Intn(7)] + r.Range(-1, 1))
+	case 1:
+		v = int64([]int{l, l - 1, l / 2, l - 256, l - 257}[r.Intn(5)] + r.Range(-1, 1))
+	case 2:
+		v = int64(r.Range(0, l))
+		if r.Chance(60) {
+			v = int64(r.Range(250, l)) // the upper part
+		}
+	case 3:
+		v = int64(r.Range(0, 9))
+	default:
+		return c11RandInt(r, l)
+	}
+	if r.Chance(35) {
+		v = -v
+	}
+	return v
+}
+
+func c11LongSub(r *Rng, l int) Sub {
+	if r.Chance(12) {
+		return Sub{Kind: SubIdx, N: c11LongInt(r, l)}
+	}
+	s := Sub{Kind: SubSlice}
+	if r.Chance(85) {
+		s.S = c11Ptr(c11LongInt(r, l))
+	}
+	if r.Chance(70) {
+		s.E = c11Ptr(c11LongInt(r, l))
+	}
+	switch r.Weighted([]int{40, 25, 10, 10, 10, 5}) {
+	case 1:
+		s.T = c11Ptr(1)
+	case 2:
+		s.T = c11Ptr(-1)
+	case 3:
+		s.T = c11Ptr(int64([]int{2, 3, -2, -3, 7}[r.Intn(5)]))
+	case 4:
+		s.T = c11Ptr(int64([]int{255, 256, 257, -256, 128}[r.Intn(5)]))
+	case 5:
 		s.T = c11Ptr(c11RandInt(r, l))
 	}
 	return s
